@@ -163,6 +163,7 @@ def exec (s : State) (args : List String) : State × List Event × String :=
       match s.get (decStr t) with
       | none => (s, [], "none")
       | some tg => (s, [], renderMeta tg)
+  | "par" :: _ => (s, [], "mon=ok")   -- parallel writers of one target beside the refresh: judged by the Go-side monitor only
   | _ => (s, [], "bad-op")
 
 def step (st : St) (args : List String) : St × String × String :=
